@@ -5,6 +5,7 @@ CONSTANTS
   MaxPkts = 1
   MaxLen = 2
   BodyClasses = {"any"}
+  Flags = {"none"}
   MaxStall = 0
   Chunking = "max"
   Dev = {}
